@@ -4,7 +4,7 @@ import pathlib
 import struct
 
 from ..engine import sym
-from ..engine.interp import Rec, Env, Closure, Bound, ClassVal, Unsupported, SymBytes
+from ..engine.interp import Rec, Env, Closure, Bound, ClassVal, Unsupported, SymBytes, PyFn
 from ..engine.loader import Unknown, norm_text, walk_local
 from ..engine.sym import is_sym
 from ..rules import guards
@@ -544,7 +544,47 @@ def rule_R8(ck):
             ck.violation(where, f"WAV output is recorded as format {rec[2]!r} at {rec[3]!r}", construct="wav path")
 
 
+def rule_R10(ck):
+    """emit_files writes every requested output with its own format and its own arguments, at its own path"""
+    repo = ck.repo
+    writes = []
+    I = eager_interp(repo, extra={"bk_wav::encode_as_wav": lambda I_, f, a, k: sym.op("wav", *a, *[v for _, v in sorted(k.items())])})
+
+    def open_device(I_, fn, a, k):
+        path = a[0]
+        rec = Rec(ClassVal("FileStub"))
+        rec.cls.attrs["write"] = PyFn(lambda I2, aa, kk: writes.append((path, aa[1])) or None, "write")
+        rec.cls.attrs["__enter__"] = PyFn(lambda I2, aa, kk: aa[0], "__enter__")
+        rec.cls.attrs["__exit__"] = PyFn(lambda I2, aa, kk: None, "__exit__")
+        return rec
+    I.summaries["devices::open_device"] = open_device
+    N1, N2 = sym.var("name1", "bytes"), sym.var("name2", "bytes")
+    S, E = sym.var("s", "obj"), sym.var("e", "obj")
+
+    def thunk():
+        del writes[:]
+        comp = I.instantiate(I.module_get("compiler", "Compiler"), [], {})
+        comp.fields["emitted_files"] = [(S, E, "bk_wav", "one.wav", N1), (S, E, "bk_wav", "two.wav", N2), (S, E, "raw", "three.raw"), (S, E, "bin", "four.bin"), (S, E, "bk_turbo_wav", "five.wav", N2)]
+        I.call_method(comp, "emit_files", [BASE, CODE])
+        return list(writes)
+    ps = I.explore(thunk)
+    where = "compiler::Compiler.emit_files"
+    if len(ps) != 1 or ps[0].kind != "return":
+        ck.violation(where, f"emit_files with five outputs does not complete on one path: {ps}", construct="emit_files paths")
+        return
+    want = [("one.wav", sym.op("wav", BASE, CODE, N1)), ("two.wav", sym.op("wav", BASE, CODE, N2)), ("three.raw", CODE),
+            ("four.bin", sym.cat(sym.pack("<HH", BASE, sym.length(CODE)), CODE)), ("five.wav", sym.op("wav", BASE, CODE, N2, True))]
+    got = ps[0].value
+    for w in want:
+        ck.instance(("emit", w[0]), {"output": w[0], "content": repr(w[1])[:80]}, fn=where)
+    if got != want:
+        diff = next((i for i, (g, w) in enumerate(zip(got + [None] * 5, want)) if g != w), None)
+        ck.violation(where, f"output #{diff + 1} is written as {got[diff] if diff < len(got) else None!r}, expected {want[diff]!r}: every output must be encoded from its own directive's format and arguments (tape name) and written to its own path",
+                     construct="emit_files per-output content", expected=repr(want[diff]), found=repr(got[diff] if diff < len(got) else None))
+
+
 def run(ck):
+    ck.run_rule("C13.R10", "emit_files writes each output with its own format, arguments and path", 5, rule_R10)
     ck.run_rule("C13.R1", "bin/raw layouts; format registry and its users", 8, rule_R1)
     ck.run_rule("C13.R2", "RIFF header slots", 6, rule_R2)
     ck.run_rule("C13.R3", "tape stream segment order (normal and turbo)", 13, rule_R3)
